@@ -203,8 +203,10 @@ namespace GeographicLib {
         throw GeographicErr
           ("Attempt to transfer UPS coordinates between hemispheres");
       zone = zoneout;
-      xout = xin;
-      yout = yin;
+      // The INVALID zone has no coordinates; return NaNs as the other branch
+      // (Reverse then Forward) does.
+      xout = zonein != INVALID ? xin : Math::NaN();
+      yout = zonein != INVALID ? yin : Math::NaN();
     }
     if (northp != northpout)
       // Can't get here if UPS
